@@ -375,3 +375,54 @@ Definition inst_checks (fuel : nat) (m : model) : bool :=
     perm_ok (inst_perm m (is_list st)) (length vals) &&
     forallb (bounded (nterms m + Z.of_nat (length vals))) vals
   end.
+
+(* ---------- lookahead flags (oracle side only; PropagateLookaheads itself is not modelled) ---------- *)
+(* The meaning of a lookahead flag: it is visible in every nonterminal without being declared; a reference
+   passes it on unchanged when it is an entry point of the enclosing rule (the first significant symbol, as in
+   entryPoints), resets it to false elsewhere, and an explicit argument overrides both.  [la_explicit] rewrites a
+   model into one where the lookahead flags are ordinary parameters of every nonterminal with explicit arguments
+   everywhere, so that the ordinary template semantics applies. *)
+Definition la_flags (m : model) : list Z :=
+  flat_map (fun '(i, p) => if p_la p then [Z.of_nat i] else []) (List.combine (seq 0 (length (m_params m))) (m_params m)).
+
+Definition seq_skipped (e : expr) : bool :=
+  match e with EEmpty | EMarker _ | ECmd _ | ELookahead _ => true | _ => false end.
+
+Fixpoint la_expr (T : Z) (la : list Z) (entry : bool) (e : expr) : expr :=
+  match e with
+  | ERef s args =>
+      if s <? T then e else
+      let is_la p := existsb (Z.eqb p) la in
+      let regular := filter (fun a => negb (is_la (a_param a))) args in
+      let extra := map (fun v => match filter (fun a => a_param a =? v) args with
+                                 | a :: _ => a
+                                 | [] => if entry then mkArg v [] v else mkArg v s_false 0
+                                 end) la in
+      ERef s (regular ++ extra)
+  | ESeq l =>
+      ESeq ((fix go (l : list expr) (first : bool) : list expr :=
+               match l with
+               | [] => []
+               | x :: r => if seq_skipped x then x :: go r first
+                           else la_expr T la (first && entry) x :: go r false
+               end) l true)
+  | EChoice l => EChoice (map (la_expr T la entry) l)
+  | EOpt x => EOpt (la_expr T la entry x)
+  | EAssign n x => EAssign n (la_expr T la entry x)
+  | EAppend n x => EAppend n (la_expr T la entry x)
+  | EArrow n f x => EArrow n f (la_expr T la entry x)
+  | ECond p x => ECond p (la_expr T la entry x)
+  | EPrec sym x => EPrec sym (la_expr T la entry x)
+  | EList fl el sep => EList fl (la_expr T la entry el) (option_map (la_expr T la false) sep)
+  | _ => e
+  end.
+
+Definition la_explicit (m : model) : model :=
+  let la := la_flags m in
+  match la with
+  | [] => m
+  | _ =>
+    mkModel (m_terms m) (m_params m)
+      (map (fun nt => mkNt (nt_name nt) (nt_params nt ++ la) (la_expr (nterms m) la true (nt_value nt)) (nt_group nt)) (m_nonterms m))
+      (m_inputs m) (m_sets m)
+  end.
